@@ -726,6 +726,56 @@ fn temp_path(path: &Path) -> PathBuf {
     ))
 }
 
+/// Verification hooks: named pause/abort points between the steps of the
+/// check / lock / compile / rename / unlock / poll / load protocol below, so that an
+/// external controller can enumerate interleavings and crash points deterministically.
+///
+/// They are no-ops unless this crate is built with `--cfg tree_sitter_tree_sitter_verif`
+/// *and* `TS_VERIF_SCHEDULE` names a directory containing a Unix socket `sock`: a caller
+/// then announces `<id> <point>` on a fresh connection and blocks until the controller
+/// answers with one byte (`a` = abort the process here, anything else = continue).
+/// `<id>` is the thread name without its `tsv-` prefix, else `TS_VERIF_LOADER_ID`, else `main`.
+/// `TS_VERIF_LOCK_TIMEOUT_MS` replaces the lock timeout (same guard).
+#[allow(unexpected_cfgs, dead_code)]
+mod verif {
+    use std::time::Duration;
+
+    #[cfg(all(tree_sitter_tree_sitter_verif, unix))]
+    pub fn point(name: &str) {
+        use std::io::{Read as _, Write as _};
+        let Ok(dir) = std::env::var("TS_VERIF_SCHEDULE") else {
+            return;
+        };
+        let id = std::thread::current()
+            .name()
+            .and_then(|n| n.strip_prefix("tsv-").map(str::to_string))
+            .or_else(|| std::env::var("TS_VERIF_LOADER_ID").ok())
+            .unwrap_or_else(|| "main".to_string());
+        let Ok(mut stream) = std::os::unix::net::UnixStream::connect(format!("{dir}/sock")) else {
+            return;
+        };
+        if writeln!(stream, "{id} {name}").is_err() {
+            return;
+        }
+        let mut reply = [0u8; 1];
+        if matches!(stream.read(&mut reply), Ok(1)) && reply[0] == b'a' {
+            std::process::abort();
+        }
+    }
+
+    #[cfg(not(all(tree_sitter_tree_sitter_verif, unix)))]
+    #[inline(always)]
+    pub fn point(_name: &str) {}
+
+    /// The lock timeout: `default`, unless overridden by `TS_VERIF_LOCK_TIMEOUT_MS`.
+    pub fn lock_timeout(default: Duration) -> Duration {
+        std::env::var("TS_VERIF_LOCK_TIMEOUT_MS")
+            .ok()
+            .and_then(|v| v.parse().ok())
+            .map_or(default, Duration::from_millis)
+    }
+}
+
 /// RAII lock file guard. The lock file is created atomically via
 /// [`create_new`](`fs::OpenOptions::create_new`) and removed on drop.
 /// and removed on drop.
@@ -754,15 +804,20 @@ impl LockFile {
 
     /// Wait for an existing lock file to be removed by whoever created it.
     /// If the lock file persists beyond `timeout`, return [`LoaderError::LockFileTimeout`]
+    #[allow(unexpected_cfgs)]
     fn wait_for_removal(path: &Path, timeout: Duration) -> LoaderResult<()> {
+        #[cfg(tree_sitter_tree_sitter_verif)]
+        let timeout = verif::lock_timeout(timeout);
         let mut sleep_ms = 100;
         let deadline = Instant::now() + timeout;
+        verif::point("poll");
         while path.exists() {
             if Instant::now() > deadline {
                 return Err(LoaderError::LockFileTimeout(path.to_path_buf()));
             }
             std::thread::sleep(Duration::from_millis(sleep_ms));
             sleep_ms = (sleep_ms * 2).min(1000);
+            verif::point("poll");
         }
 
         Ok(())
@@ -1131,6 +1186,7 @@ impl Loader {
         );
 
         if !recompile {
+            verif::point("check");
             recompile = needs_recompile(&output_path, &paths_to_check)?;
         }
 
@@ -1166,6 +1222,7 @@ impl Loader {
             fs::create_dir_all(parent_path)
                 .map_err(|e| LoaderError::IO(IoError::new(e, Some(parent_path))))?;
 
+            verif::point("lock");
             match LockFile::create(&lock_path)? {
                 Some(_lock) => {
                     // We won the race, so compile with the lock.
@@ -1191,11 +1248,13 @@ impl Loader {
                         )?;
                     }
                     if !compile_wasm {
+                        verif::point("compile");
                         self.compile_parser_to_dylib(&config)?;
                         if config.scanner_path.is_some() {
                             Self::check_external_scanner(&output_path);
                         }
                     }
+                    verif::point("unlock");
                     // _lock dropped here, removing the lock file.
                 }
                 // Another thread/process is compiling (or a previous run
@@ -1211,6 +1270,7 @@ impl Loader {
             return Ok(wasm_store.load_language(&config.name, &wasm_bytes)?);
         }
 
+        verif::point("load");
         Self::load_language(&output_path, &language_fn_name)
     }
 
@@ -1347,6 +1407,7 @@ impl Loader {
         }
 
         if output.status.success() {
+            verif::point("rename");
             fs::rename(&temp_output, output_path).map_err(|e| {
                 let _ = fs::remove_file(&temp_output);
                 LoaderError::IO(IoError::new(e, Some(output_path)))
